@@ -88,11 +88,15 @@ class NP(Backend):
         a = np.array(x, dtype=np.int64)
         if self.flavours is None or a.ndim == 0 or a.size == 0:
             return a
-        k = int(self.flavours.integers(5))
-        name = ["int64-C", "int32", "fortran", "strided-view", "negative-step-view"][k]
+        # memory layouts only (the library itself hands out such views, e.g. L[::2], L[::-1], inverse()); the dtype stays the
+        # library's own int64 - other integer widths are not something its typed kernels promise to accept
+        k = int(self.flavours.integers(2, 6)) if self.flavours.integers(4) else 0
+        name = ["int64-C", "", "fortran", "strided-view", "negative-step-view", "offset-view"][k]
         self.flavour_counts[name] = self.flavour_counts.get(name, 0) + 1
-        if k == 1:
-            return a.astype(np.int32)
+        if k == 5:   # a window into a larger buffer along the first axis
+            big = np.zeros((a.shape[0] + 2,) + a.shape[1:], dtype=np.int64)
+            big[1:-1] = a
+            return big[1:-1]
         if k == 2 and a.ndim == 2:
             return np.asfortranarray(a)
         if k == 3:   # every second element of a wider buffer along the last axis
